@@ -487,6 +487,24 @@ macro_rules! generate_opcodes {
             ),*
         }
 
+        #[cfg(boa_verif)]
+        impl Instruction {
+            /// Decoded form for the verification observer: opcode name and named, typed operands.
+            #[allow(unused_variables, unused_mut)]
+            pub(crate) fn verif_fields(&self) -> (&'static str, Vec<(&'static str, crate::verif::Operand)>) {
+                use crate::verif::ToVerifOperand;
+                match self {
+                    $(
+                        Self::$Variant $({ $($FieldName),* })? => {
+                            let mut v: Vec<(&'static str, crate::verif::Operand)> = Vec::new();
+                            $($( v.push((stringify!($FieldName), $FieldName.to_verif_operand())); )*)?
+                            (stringify!($Variant), v)
+                        }
+                    ),*
+                }
+            }
+        }
+
         impl Bytecode {
             #[allow(unused_parens)]
             pub(crate) fn next_instruction(&self, pc: usize) -> (Instruction, usize) {
